@@ -12,7 +12,10 @@ from vlib.refmodel import marginal_distribution
 PROPERTY = "C04"
 RULE = ("Circuits from the program generators (lossless / loss elements anywhere incl. loss 0 and 1 / "
         "lossy shorthands / nested heralded additions / external heralds with photons), inputs with 0-3(4) "
-        "photons incl. vacuum and bunched, both backends, ideal source. Oracle: marginal over loss modes "
+        "photons incl. vacuum and bunched, both backends (named by string or given as Backend object), ideal source; "
+        "exactly-valued interferometers (Hadamard / DFT / permutation blocks, qubit-library gates, 50:50 splitters) "
+        "followed by loss with photons in >= 2 inputs; routing-only circuits (swaps with long cycles, permutation "
+        "blocks, phases, zero loss). Oracle: marginal over loss modes "
         "of the exact Fock distribution computed with own permanent from the real U_full and heralds. "
         "Non-trivial = (lossy and >= 2 injected photons) or a herald carrying photons; distinct = "
         "distinct case JSON.")
